@@ -9,16 +9,23 @@
   (`readH true`, `writeH true`, `Cfg.fixed`); the as-found behaviour is refuted by `cex_*`.
   Layer E is proved for ONE directory (Model/Fat/FlatFs.lean: table + device + the files of a
   directory, operations create / write-at-offset / truncating open / remove / rename with
-  replacement): `fat_refines_tree`, `fat_refused_unchanged`, `fat_history`.
-  NOT proved: nested directories, the directory's own on-disk encoding inside that state machine
-  (its codec is proved separately, `dir_parse_ser`) and open handles; those clauses are carried by
-  the engine's oracle on the real code.
+  replacement): `fat_refines_tree`, `fat_refused_unchanged`, `fat_history`,
+  and for a TREE of directories (Model/Fat/TreeFs.lean: table + device + a tree of nodes each
+  owning a cluster chain; mkdir / create / write-at-offset / truncating open / remove / rename
+  addressed by directory path, the parent directory's chain grown or shrunk by every call, refusals
+  for lack of space or root slots rolled back): `fat_tree_refines`, `fat_tree_refused_unchanged`,
+  `fat_tree_spec_error`, `fat_tree_history`, `fat_tree_mkdir_all`.
+  NOT proved: what a directory's bytes are inside that state machine (the images written are
+  parameters; the codec is proved separately, `dir_parse_ser`), open handles that live across calls,
+  8.3 aliasing of names, rename across directories (the code refuses it); those clauses are carried
+  by the engine's oracle on the real code.
 -/
 import DiskfsModel.Proofs.FatChain
 import DiskfsModel.Proofs.FatTable
 import DiskfsModel.Proofs.FatFileIO
 import DiskfsModel.Proofs.FatDir
 import DiskfsModel.Proofs.FatFlatFs
+import DiskfsModel.Proofs.FatTreeStep
 import DiskfsModel.Model.Fat.Fs
 import DiskfsModel.Generated.Fat
 namespace Diskfs.Fat.C01
@@ -244,6 +251,81 @@ theorem create_refused_iff_full (eqn) (g : FGeom) (fuel : Nat) (s : FState) (n :
     (h : FInv eqn g s) (hn : ffind eqn s.files n = none) :
     (fstep eqn g fuel s (.create n)).2 = false ↔ freeCount g.lim s.m < 1 :=
   create_refused_iff hb hlim hmax s n h hn
+
+/-! ### E — the property itself, for a tree of directories -/
+
+/-- **fat_tree_refines**: a FAT volume as table + device + a TREE of nodes, every file and every
+    directory owning a cluster chain (the root: a chain on FAT32, the fixed region on FAT12/16).
+    Every accepted call — `Mkdir` of one component, `OpenFile(O_CREATE)`, `Write` at any offset
+    through a fresh handle, truncating open, `Remove` of a file or empty directory, `Rename` inside
+    a directory with or without replacement — addressed by ANY directory path, changes the tree read
+    back from the volume (`tabs`: names, nesting, every file's bytes through its chain) exactly as
+    the specification `Spec.step` says, the specification accepts it too, and the invariant
+    (`TInv`: cluster map sound with exactly the tree's chains as owners, files have the clusters
+    their sizes need, names in a directory pairwise different) is kept — including the growth or
+    shrinking of the parent directory's own chain by `writeDirectoryEntries` at every level.
+    For every table, device content, tree, path depth, slot-count function, name comparison that
+    is an equivalence, offset inside / at / past EOF, payload and directory image. -/
+theorem fat_tree_refines (eqn) (g : TGeom) (fuel : Nat) (s : DirSt) (op : TOp)
+    (he : EqnOk eqn) (hg : TGeomOk g) (hfuel : g.f.lim - 2 ≤ fuel) (h : TInv eqn g s)
+    (hacc : (tstep eqn g fuel s op).2 = .ok) :
+    TInv eqn g (tstep eqn g fuel s op).1 ∧
+    tabs g (tstep eqn g fuel s op).1 = (Spec.step eqn (tabs g s) op.toSpec).1 ∧
+    (Spec.step eqn (tabs g s) op.toSpec).2 = .ok :=
+  ⟨tstep_inv he hg hfuel s op h, tstep_refines he hg hfuel s op h hacc⟩
+
+/-- **fat_tree_refused_unchanged**: a call that is refused — a missing or non-directory path
+    component, no such file, a non-empty directory, no free cluster for the entry or for the growth
+    of the parent directory (at any depth, also inside a multi-cluster subdirectory), no free slot
+    in the fixed root directory, a rename onto the same name — returns the state it was given:
+    same table, same device, same root chain, same tree (the cluster taken for the new entry has
+    been given back). -/
+theorem fat_tree_refused_unchanged (eqn) (g : TGeom) (fuel : Nat) (s : DirSt) (op : TOp)
+    (he : EqnOk eqn) (hg : TGeomOk g) (hfuel : g.f.lim - 2 ≤ fuel) (h : TInv eqn g s)
+    (hrej : (tstep eqn g fuel s op).2 ≠ .ok) :
+    (tstep eqn g fuel s op).1 = s ∧ tabs g (tstep eqn g fuel s op).1 = tabs g s := by
+  have := tstep_refused he hg hfuel s op h hrej
+  exact ⟨this, by rw [this]⟩
+
+/-- **fat_tree_spec_error**: whenever the model refuses with one of the specification's errors
+    (not found, not a directory, is a directory, not empty) the specification refuses the same call
+    on the tree read back from the volume with the same error. -/
+theorem fat_tree_spec_error (eqn) (g : TGeom) (fuel : Nat) (s : DirSt) (op : TOp)
+    (he : EqnOk eqn) (hg : TGeomOk g) (hfuel : g.f.lim - 2 ≤ fuel) (h : TInv eqn g s)
+    (e : Spec.Res) (herr : (tstep eqn g fuel s op).2 = .spec e) :
+    (Spec.step eqn (tabs g s) op.toSpec).2 = e :=
+  tstep_spec_error he hg hfuel s op h e herr
+
+/-- **fat_tree_history**: by induction over the call sequence, after every history of
+    path-addressed calls the invariant holds and the tree read back equals the specification
+    replayed over the accepted calls (`tspecRun`); when no call was refused that is `Spec.run`. -/
+theorem fat_tree_history (eqn) (g : TGeom) (fuel : Nat) (ops : List TOp) (s : DirSt)
+    (he : EqnOk eqn) (hg : TGeomOk g) (hfuel : g.f.lim - 2 ≤ fuel) (h : TInv eqn g s) :
+    TInv eqn g (trun eqn g fuel s ops) ∧
+    tabs g (trun eqn g fuel s ops) = tspecRun eqn g fuel s (tabs g s) ops ∧
+    ((∀ (i : Nat) (hi : i < ops.length),
+        (tstep eqn g fuel (trun eqn g fuel s (ops.take i)) ops[i]).2 = .ok) →
+      tabs g (trun eqn g fuel s ops) = Spec.run eqn (tabs g s) (ops.map TOp.toSpec)) := by
+  obtain ⟨h1, h2⟩ := trun_refines he hg hfuel ops s h
+  exact ⟨h1, h2, fun hall => by rw [h2, tspecRun_all_accepted eqn g fuel ops s _ hall]⟩
+
+/-- **fat_tree_mkdir_all**: `Mkdir(p)` creates the missing components one by one (mkdir -p); the
+    invariant holds wherever it stops, and when every component was accepted the tree is the
+    specification's after the same sequence of single-component `mkdir`s. -/
+theorem fat_tree_mkdir_all (eqn) (g : TGeom) (fuel : Nat) (img img2 : Bytes) (path pre : List Spec.Name)
+    (s : DirSt) (he : EqnOk eqn) (hg : TGeomOk g) (hfuel : g.f.lim - 2 ≤ fuel) (h : TInv eqn g s) :
+    TInv eqn g (tmkdirAll eqn g fuel img img2 s pre path).1 ∧
+    ((tmkdirAll eqn g fuel img img2 s pre path).2 = .ok →
+      tabs g (tmkdirAll eqn g fuel img img2 s pre path).1 = (specMkdirAll eqn (tabs g s) pre path).1 ∧
+      (specMkdirAll eqn (tabs g s) pre path).2 = .ok) :=
+  tmkdirAll_refines he hg hfuel img img2 path pre s h
+
+/-- non-vacuity: a FAT12 volume with a file and a two-cluster subdirectory in its fixed root
+    satisfies the hypotheses (more worked calls beside `exTree` in Proofs/FatTreeStep.lean) -/
+example : EqnOk exEqn ∧ TGeomOk exTGeom ∧ exTGeom.f.lim - 2 ≤ 8 ∧ TInv exEqn exTGeom exTree :=
+  ⟨exEqn_ok, exTGeom_ok, by decide, exTree_inv⟩
+example : (tstep exEqn exTGeom 8 exTree (.create [[66]] [67] [])).2 = .ok := by decide
+example : (tstep exEqn exTGeom 8 exTree (.create [[65]] [67] [])).2 = .spec .notdir := by decide
 
 /-! ### D — names -/
 
